@@ -26,7 +26,7 @@ Devs(e) ==
                 \cup (IF ToSet(m.entries) = ToSet(e.res.entries) /\ Len(m.entries) = Len(e.res.entries) THEN {}
                       ELSE { <<"parsed entries # model", <<e.res.entries, m.entries>> >> })
            ELSE IF m.class = "err"
-           THEN (IF ErrList(e.res.errors) = m.errors THEN {} ELSE { <<"errors # model", <<ErrList(e.res.errors), m.errors>> >> })
+           THEN (IF ErrList(e.res.errors) = m.errors THEN {} ELSE { <<"INFO: errors # model (both reject the text)", <<ErrList(e.res.errors), m.errors>> >> })
            ELSE {})
 Init == l = 1 /\ ndev = 0
 Next == /\ l <= Len(Rec) /\ l' = l + 1
